@@ -37,15 +37,9 @@ Proof. intros Hn H x. destruct (H x) as [E|[_ F]]; auto. rewrite Hn in F. discri
 Section IntrospectP.
 Variable md5 : N -> N.
 Variable v : ver.
-Variable name_ltb : name -> name -> bool.
 
 Notation get_status := (get_status md5 v).
-Notation task_status := (task_status md5 v).
-Notation print_tasks := (print_tasks md5 v).
-Notation list_cmd := (list_cmd md5 v name_ltb).
-Notation info_cmd := (info_cmd md5 v).
 Notation run_decision := (run_decision md5 v).
-Notation status_letters := (status_letters md5 v).
 
 Lemma get_status_frame c fs d t df gl : db_frame c d (g_db (get_status c fs d t df gl)).
 Proof.
@@ -54,70 +48,19 @@ Proof.
   - apply db_frame_remove; auto.
 Qed.
 
-Lemma task_status_frame c fs d t : db_frame c d (snd (task_status c fs d t)).
-Proof.
-  unfold Introspect.task_status. destruct (status_is_ignore d (l_name t)); simpl.
-  - apply db_frame_refl.
-  - apply get_status_frame.
-Qed.
-
 Lemma prepend_ok ls r l d : prepend ls r = LOk l d -> exists l0, r = LOk l0 d /\ l = ls ++ l0.
 Proof. destruct r; simpl; intros H; inversion H; subst. eexists; split; reflexivity. Qed.
 Lemma prepend_crash ls r l d : prepend ls r = LCrash l d -> exists l0, r = LCrash l0 d /\ l = ls ++ l0.
 Proof. destruct r; simpl; intros H; inversion H; subst. eexists; split; reflexivity. Qed.
 
-(* the DB `list` leaves in memory, whatever the options and the outcome *)
+(* the DB `list` / `info` leave in memory, whatever the options and the outcome *)
 Definition lres_db (d : db) (r : lres) : db :=
   match r with LOk _ d' | LCrash _ d' => d' | _ => d end.
-
-Lemma print_tasks_frame c fs o pl : forall d, db_frame c d (lres_db d (print_tasks c fs o pl d)).
-Proof.
-  induction pl as [|t pl IH]; intros d; simpl.
-  - apply db_frame_refl.
-  - destruct (o_status o).
-    + pose proof (task_status_frame c fs d t) as F.
-      destruct (task_status c fs d t) as [[l|] d1]; simpl in *; auto.
-      specialize (IH d1).
-      destruct (print_tasks c fs o pl d1); simpl in *; try apply db_frame_refl; eapply db_frame_trans; eauto.
-    + specialize (IH d). destruct (print_tasks c fs o pl d); simpl in *; auto; apply db_frame_refl.
-Qed.
-
-Lemma list_cmd_frame tb o c fs d : db_frame c d (lres_db d (list_cmd tb o c fs d)).
-Proof.
-  unfold Introspect.list_cmd. destruct (print_list name_ltb tb o); simpl; try apply db_frame_refl.
-  apply print_tasks_frame.
-Qed.
-
-(* without --status the dependency manager is never asked *)
-Lemma print_tasks_no_status c fs o pl : o_status o = false -> forall d, lres_db d (print_tasks c fs o pl d) = d.
-Proof.
-  intros Hs. induction pl as [|t pl IH]; intros d; simpl; auto.
-  rewrite Hs. specialize (IH d). destruct (print_tasks c fs o pl d); simpl in *; auto.
-Qed.
-
 Definition ires_db (d : db) (r : ires) : db :=
   match r with IOk _ _ _ d' | ICrash d' => d' | _ => d end.
 
-Lemma info_cmd_frame tb pos hide c fs d : db_frame c d (ires_db d (info_cmd tb pos hide c fs d)).
-Proof.
-  unfold Introspect.info_cmd. destruct pos as [|n [|n2 pos]]; simpl; try apply db_frame_refl.
-  destruct (lookup tb n) as [t|]; simpl; try apply db_frame_refl.
-  destruct hide; simpl; try apply db_frame_refl.
-  pose proof (get_status_frame c fs d (l_name t) (l_def t) true) as F.
-  destruct (g_status (get_status c fs d (l_name t) (l_def t) true)); simpl; auto.
-Qed.
-
-Lemma info_hide_db tb pos c fs d : ires_db d (info_cmd tb pos true c fs d) = d.
-Proof.
-  unfold Introspect.info_cmd. destruct pos as [|n [|n2 pos]]; simpl; auto. destruct (lookup tb n); reflexivity.
-Qed.
-
 Lemma persisted_frame b c d d' : db_frame c d d' -> db_frame c d (persisted b d d').
 Proof. intros H. destruct b; simpl; auto; apply db_frame_refl. Qed.
-
-(* ------------------------------------------------------------------ the commands as histories *)
-Notation step := (step md5 (fun _ => 0) v).
-Notation run_from := (run_from md5 (fun _ => 0) v).
 
 (* what a status query leaves alone *)
 Definition same_world (s s' : state) : Prop :=
@@ -144,12 +87,79 @@ Qed.
 Lemma info_ops_query hide n : forallb query_op (info_ops hide n) = true.
 Proof. destruct hide; reflexivity. Qed.
 
-(* the DB after `list`: the DB after the Check operations of the tasks printed (those not ignored) *)
 Definition ign_frame (d dk : db) : Prop :=
   forall x, dk x = d x \/ (dk x = None /\ status_is_ignore d x = false).
+Lemma ign_frame_refl d : ign_frame d d.
+Proof. intros x; auto. Qed.
 
+Definition is_task_line (l : lline) : bool := match l with LTask _ _ => true | _ => false end.
+
+Lemma run_def_no_calc tb fd t : l_calc_dep t = [] -> run_def tb fd t = l_def t.
+Proof. unfold run_def. intros ->. reflexivity. Qed.
+
+(* ------------------------------------------------------------------ the commands (any code version [iv]) *)
+Section Cmds.
+Variable iv : iver.
+Variable cf : name -> list file.
+Variable tb : table.
+
+Notation task_status := (task_status md5 v iv cf tb).
+Notation print_tasks := (print_tasks md5 v iv cf tb).
+Notation info_cmd := (info_cmd md5 v iv cf tb).
+Notation status_letters := (status_letters md5 v iv cf tb).
+Notation shown_def := (shown_def iv cf tb).
+
+Lemma task_status_frame c fs d t : db_frame c d (snd (task_status c fs d t)).
+Proof.
+  unfold Introspect.task_status. destruct (status_is_ignore d (l_name t)); simpl.
+  - apply db_frame_refl.
+  - apply get_status_frame.
+Qed.
+
+Lemma print_tasks_frame c fs o pl : forall d, db_frame c d (lres_db d (print_tasks c fs o pl d)).
+Proof.
+  induction pl as [|t pl IH]; intros d; simpl.
+  - apply db_frame_refl.
+  - destruct (o_status o).
+    + pose proof (task_status_frame c fs d t) as F.
+      destruct (task_status c fs d t) as [[l|] d1]; simpl in *; auto.
+      specialize (IH d1).
+      destruct (print_tasks c fs o pl d1); simpl in *; try apply db_frame_refl; eapply db_frame_trans; eauto.
+    + specialize (IH d). destruct (print_tasks c fs o pl d); simpl in *; auto; apply db_frame_refl.
+Qed.
+
+Lemma list_cmd_frame name_ltb o c fs d : db_frame c d (lres_db d (list_cmd md5 v name_ltb iv cf tb o c fs d)).
+Proof.
+  unfold Introspect.list_cmd. destruct (print_list name_ltb tb o); simpl; try apply db_frame_refl.
+  apply print_tasks_frame.
+Qed.
+
+(* without --status the dependency manager is never asked *)
+Lemma print_tasks_no_status c fs o pl : o_status o = false -> forall d, lres_db d (print_tasks c fs o pl d) = d.
+Proof.
+  intros Hs. induction pl as [|t pl IH]; intros d; simpl; auto.
+  rewrite Hs. specialize (IH d). destruct (print_tasks c fs o pl d); simpl in *; auto.
+Qed.
+
+Lemma info_cmd_frame pos hide c fs d : db_frame c d (ires_db d (info_cmd pos hide c fs d)).
+Proof.
+  unfold Introspect.info_cmd. destruct pos as [|n [|n2 pos]]; simpl; try apply db_frame_refl.
+  destruct (lookup tb n) as [t|]; simpl; try apply db_frame_refl.
+  destruct hide; simpl; try apply db_frame_refl.
+  destruct (fixIgn iv && status_is_ignore d (l_name t)); simpl; try apply db_frame_refl.
+  pose proof (get_status_frame c fs d (l_name t) (shown_def d t) true) as F.
+  destruct (g_status (get_status c fs d (l_name t) (shown_def d t) true)); simpl; auto.
+Qed.
+
+Lemma info_hide_db pos c fs d : ires_db d (info_cmd pos true c fs d) = d.
+Proof.
+  unfold Introspect.info_cmd. destruct pos as [|n [|n2 pos]]; simpl; auto. destruct (lookup tb n); reflexivity.
+Qed.
+
+(* the DB after `list`: the DB after the Check operations of the tasks printed (those not ignored),
+   when the definitions the command hands to get_status are the ones of the history's state *)
 Lemma print_tasks_as_history size_of o pl : forall s lines d',
-  (forall t, In t pl -> l_def t = s_defs s (l_name t)) ->
+  (forall t dk, In t pl -> shown_def dk t = s_defs s (l_name t)) ->
   print_tasks (s_ck s) (s_fs s) o pl (s_db s) = LOk lines d' ->
   forall d0, ign_frame d0 (s_db s) ->
   s_db (History.run_from md5 size_of v s (list_ops d0 (o_status o) pl)) = d'.
@@ -162,16 +172,16 @@ Proof.
       unfold Introspect.task_status in H. simpl. rewrite Eig.
       destruct (status_is_ignore (s_db s) (l_name t)) eqn:Ei; simpl in *.
       * apply prepend_ok in H. destruct H as [l0 [H _]].
-        specialize (IH s l0 d' (fun t' Ht' => Hdef t' (or_intror Ht')) ). apply (IH H d0 Hig).
-      * destruct (status_letter (g_status (get_status (s_ck s) (s_fs s) (s_db s) (l_name t) (l_def t) false))) eqn:El; [|discriminate].
+        specialize (IH s l0 d' (fun t' dk Ht' => Hdef t' dk (or_intror Ht'))). apply (IH H d0 Hig).
+      * rewrite (Hdef t (s_db s) (or_introl eq_refl)) in H.
+        destruct (status_letter (g_status (get_status (s_ck s) (s_fs s) (s_db s) (l_name t) (s_defs s (l_name t)) false))) eqn:El; [|discriminate].
         apply prepend_ok in H. destruct H as [l0 [H _]].
-        rewrite (Hdef t (or_introl eq_refl)) in H.
         set (g := get_status (s_ck s) (s_fs s) (s_db s) (l_name t) (s_defs s (l_name t)) false) in *.
         set (s1 := History.step md5 size_of v s (Check (l_name t))).
         assert (Hs1 : s_db s1 = g_db g /\ s_ck s1 = s_ck s /\ s_fs s1 = s_fs s /\ s_defs s1 = s_defs s) by (repeat split).
         destruct Hs1 as (A & B & C & D).
         specialize (IH s1 l0 d'). apply IH.
-        -- intros t' Ht'. rewrite D. apply Hdef. right; auto.
+        -- intros t' dk Ht'. rewrite D. apply Hdef. right; auto.
         -- rewrite A, B, C. exact H.
         -- intros x. rewrite A.
            destruct (get_status_db md5 v (s_ck s) (s_fs s) (s_db s) (l_name t) (s_defs s (l_name t)) false) as [E|[_ E]]; fold g in E; rewrite E.
@@ -180,47 +190,38 @@ Proof.
               ** right. split; [apply remove_same|]. exact Eig.
               ** rewrite remove_other by auto. apply Hig.
     + apply prepend_ok in H. destruct H as [l0 [H _]].
-      specialize (IH s l0 d' (fun t' Ht' => Hdef t' (or_intror Ht'))). apply (IH H d0 Hig).
+      specialize (IH s l0 d' (fun t' dk Ht' => Hdef t' dk (or_intror Ht'))). apply (IH H d0 Hig).
 Qed.
 
-Lemma ign_frame_refl d : ign_frame d d.
-Proof. intros x; auto. Qed.
-
-(* ------------------------------------------------------------------ list --status = the decision of run *)
+(* ---- list --status = the decision of run on the definition the command shows ---- *)
 Lemma task_status_decision c fs d t :
-  fst (task_status c fs d t) = decision_letter (run_decision c fs d (l_name t) (l_def t)).
+  fst (task_status c fs d t) = decision_letter (run_decision c fs d (l_name t) (shown_def d t)).
 Proof.
   unfold Introspect.task_status, Introspect.run_decision.
   destruct (status_is_ignore d (l_name t)); simpl; auto.
-  destruct (g_status (get_status c fs d (l_name t) (l_def t) false)); reflexivity.
+  destruct (g_status (get_status c fs d (l_name t) (shown_def d t) false)); reflexivity.
 Qed.
-
-Lemma run_def_no_calc calc_fd t : l_calc_dep t = [] -> run_def calc_fd t = l_def t.
-Proof. unfold run_def. intros ->. reflexivity. Qed.
 
 (* every entry of status_letters: the decision of run in the DB the task was examined in, which is
    the initial DB up to the documented invalidation *)
-Lemma status_letters_spec c fs calc_fd pl : forall d n l dk,
+Lemma status_letters_spec c fs pl : forall d n l dk,
   In (n, l, dk) (status_letters c fs pl d) ->
   db_frame c d dk /\
-  exists t, In t pl /\ n = l_name t /\
-            (l_calc_dep t = [] -> l = decision_letter (run_decision c fs dk n (run_def calc_fd t))).
+  exists t, In t pl /\ n = l_name t /\ l = decision_letter (run_decision c fs dk n (shown_def dk t)).
 Proof.
   induction pl as [|t pl IH]; intros d n l dk H; simpl in H; [destruct H|].
   destruct H as [H|H].
   - inversion H; subst. split; [apply db_frame_refl|]. exists t. split; [left; auto|]. split; auto.
-    intros Hc. rewrite run_def_no_calc by auto. apply task_status_decision.
+    apply task_status_decision.
   - destruct (IH _ _ _ _ H) as (F & t' & Hin & Hn & Hl). split.
     + eapply db_frame_trans; [apply task_status_frame | exact F].
     + exists t'. split; [right; auto|]. auto.
 Qed.
 
-Definition is_task_line (l : lline) : bool := match l with LTask _ _ => true | _ => false end.
-
-Lemma filter_dep_lines o t : filter is_task_line (dep_lines o t) = [].
+Lemma filter_dep_lines o d t : filter is_task_line (dep_lines iv cf tb o d t) = [].
 Proof.
   unfold dep_lines. destruct (o_list_deps o); auto.
-  rewrite filter_app. simpl. rewrite app_nil_r. induction (file_dep (l_def t)); simpl; auto.
+  rewrite filter_app. simpl. rewrite app_nil_r. induction (file_dep _); simpl; auto.
 Qed.
 
 (* the task lines `list --status` prints are exactly status_letters *)
@@ -235,6 +236,25 @@ Proof.
     apply prepend_ok in H. destruct H as [l0 [H ->]].
     simpl. rewrite filter_app, filter_dep_lines. simpl. f_equal. apply (IH d1 l0 d' H).
 Qed.
+
+(* what `info` shows, as a decision *)
+Lemma info_cmd_status n t c fs d st lines rc d' :
+  lookup tb n = Some t ->
+  info_cmd [n] false c fs d = IOk st lines rc d' ->
+  (fixIgn iv && status_is_ignore d (l_name t) = true /\ st = IIgnored /\ lines = [] /\ d' = d) \/
+  (fixIgn iv && status_is_ignore d (l_name t) = false /\
+   let g := get_status c fs d (l_name t) (shown_def d t) true in
+   st = IStatus (g_status g) /\ g_status g <> Crash /\ d' = g_db g /\
+   lines = (match g_status g with UpToDate => [] | _ => get_reasons (g_reasons g) end)).
+Proof.
+  intros Hl H. unfold Introspect.info_cmd in H. rewrite Hl in H.
+  destruct (fixIgn iv && status_is_ignore d (l_name t)) eqn:Ei; simpl in H.
+  - left. inversion H; subst. auto.
+  - right. split; auto. cbv zeta.
+    destruct (g_status (get_status c fs d (l_name t) (shown_def d t) true)) eqn:Es; inversion H; subst; repeat split; auto; discriminate.
+Qed.
+
+End Cmds.
 
 (* ---- Runner.select_task on a node selected for the first time, with no bad / ignored dependency
    and without --always, does what run_decision says ---- *)
@@ -357,7 +377,6 @@ Proof.
   - unfold is_changed, is_missing. destruct (file_verdict md5 c fs r f) eqn:E; auto.
     + destruct (IH ch (f :: ms)) as [H|H]; [left; auto|right]. rewrite H. simpl. rewrite <- !app_assoc. reflexivity.
     + destruct (IH (f :: ch) ms) as [H|H]; [left; auto|right]. rewrite H. simpl. rewrite <- !app_assoc. reflexivity.
-    + apply IH.
 Qed.
 
 Lemma false_positions_spec l : forall k i,
@@ -462,7 +481,7 @@ Lemma get_reasons_nodeps r : In INoDeps (get_reasons r) <-> rs_no_deps r = true.
 Proof.
   unfold get_reasons. rewrite !in_app_iff. split.
   - intros [H|[H|[H|H]]].
-    + destruct (rs_no_deps r); auto. destruct H.
+    + destruct (rs_no_deps r); auto; destruct H.
     + destruct (rs_uptodate_false r); [destruct H|]. destruct H as [H|H]; [discriminate|].
       apply in_map_iff in H. destruct H as [y [Hy _]]. discriminate.
     + destruct (rs_checker_changed r) as [[p c']|]; [destruct H as [H|[]]; discriminate | destruct H].
@@ -514,11 +533,11 @@ Proof.
     split; [destruct (rs_checker_changed r) as [[? ?]|]; [discriminate|auto]|].
     intros k. unfold all_kinds in H4. simpl in H4.
     repeat (apply app_eq_nil in H4; let A := fresh "A" in destruct H4 as [A H4]).
-    destruct k;
-      match goal with
-      | A : match entries r ?kk with _ => _ end = [] |- entries r ?kk = [] => destruct (entries r kk); [auto|discriminate]
-      end.
-  - intros (H1 & H2 & H3 & H4). rewrite H1, H2, H3. simpl. unfold all_kinds. simpl. rewrite !H4. reflexivity.
+    destruct k; simpl;
+      [destruct (rs_missing_target r) | destruct (rs_changed_file_dep r) | destruct (rs_missing_file_dep r)
+       | destruct (match rs_removed r with Some l => sort_files l | None => [] end)
+       | destruct (match rs_added r with Some l => sort_files l | None => [] end)]; auto; discriminate.
+  - intros (H1 & H2 & H3 & H4). rewrite H1, H2, H3. unfold all_kinds. cbn [flat_map app]. rewrite !H4. reflexivity.
 Qed.
 
 Lemma set_eqb_false_diff a b : set_eqb a b = false -> diff a b <> [] \/ diff b a <> [].
@@ -571,7 +590,7 @@ Proof.
   set (g := get_status c fs d t df true) in *.
   set (rc := getrec (g_db g) t) in *.
   rewrite get_reasons_nil.
-  unfold g at 3. rewrite get_status_log_uptodate_iff.
+  pose proof (get_status_log_uptodate_iff md5 v c fs d t df) as Hu. fold g in Hu. rewrite Hu. clear Hu.
   rewrite <- items_ok_b, <- some_dep_b, <- targets_ok_b.
   assert (Hrc : ck_changed c (getrec d t) = false -> rc = getrec d t).
   { intros E. unfold rc. rewrite Edb, E. reflexivity. }
@@ -582,11 +601,11 @@ Proof.
       destruct (r_checker (getrec d t)); discriminate. }
     specialize (Hrc Eck). rewrite <- Hrc.
     split; [rewrite <- R1, N2; reflexivity|]. split; [rewrite <- R2; exact N1|].
-    split; [rewrite <- R3; exact (N4 KMissingTarget)|]. split; [exact Eck|].
+    split; [rewrite <- R3; pose proof (N4 KMissingTarget) as X; simpl in X; rewrite X; reflexivity|]. split; [rewrite Hrc; exact Eck|].
     split.
     + destruct (deps_changed v rc df) eqn:E; auto. exfalso.
       pose proof (N4 KAdded) as A. pose proof (N4 KRemoved) as B. unfold entries in A, B. rewrite R5 in A. rewrite R6 in B.
-      apply sort_files_nil in A. apply sort_files_nil in B. destruct (deps_changed_diff rc df E); auto.
+      apply (proj1 (sort_files_nil _)) in A. apply (proj1 (sort_files_nil _)) in B. destruct (deps_changed_diff rc df E); auto.
     + apply Forall_forall. intros f Hf.
       pose proof (N4 KChanged) as A. pose proof (N4 KMissingDep) as B. unfold entries in A, B. rewrite R8 in A. rewrite R7 in B.
       rewrite filter_nil_iff in A, B. specialize (A f Hf). specialize (B f Hf). unfold is_changed in A. unfold is_missing in B.
@@ -622,4 +641,314 @@ Proof.
     + rewrite R5, Hrc, U5. reflexivity.
 Qed.
 
+
+(* ---- the reasons, each one against the fact it states ---- *)
+Lemma deps_changed_iff r df : fixA v = true ->
+  (deps_changed v r df = true <-> exists p, r_deps r = Some p /\ ~ same_set p (file_dep df)).
+Proof.
+  intros HA. unfold deps_changed. rewrite HA. destruct (r_deps r) as [[|x p]|]; simpl.
+  - rewrite negb_true_iff. split.
+    + intros H. exists []. split; auto. intros S. apply set_eqb_same in S. congruence.
+    + intros [p [E S]]. inversion E; subst. destruct (set_eqb [] (file_dep df)) eqn:X; auto.
+      exfalso. apply S. apply set_eqb_same. exact X.
+  - rewrite negb_true_iff. split.
+    + intros H. exists (x :: p). split; auto. intros S. apply set_eqb_same in S. congruence.
+    + intros [p' [E S]]. inversion E; subst. destruct (set_eqb (x :: p) (file_dep df)) eqn:X; auto.
+      exfalso. apply S. apply set_eqb_same. exact X.
+  - split; [discriminate|]. intros [p [E _]]. discriminate.
+Qed.
+
+Lemma file_verdict_changed c fs r f :
+  file_verdict md5 c fs r f = FChanged <->
+  exists st, fs f = Some st /\
+             (r_saved r f = None \/ exists e, r_saved r f = Some e /\ check_modified md5 c st e = Some true).
+Proof.
+  unfold file_verdict. destruct (fs f) as [st|].
+  - destruct (r_saved r f) as [e|].
+    + destruct (check_modified md5 c st e) as [[|]|] eqn:E; split; try discriminate.
+      * intros _. exists st. split; auto. right. exists e. auto.
+      * intros [st' [H1 [H2|[e' [H2 H3]]]]]; [discriminate|]. inversion H1; inversion H2; subst. congruence.
+      * intros [st' [H1 [H2|[e' [H2 H3]]]]]; [discriminate|]. inversion H1; inversion H2; subst. congruence.
+      * intros [st' [H1 [H2|[e' [H2 H3]]]]]; [discriminate|]. inversion H1; inversion H2; subst. congruence.
+    + split; auto. intros _. exists st. auto.
+  - split; [discriminate|]. intros [st [H _]]. discriminate.
+Qed.
+
+Lemma info_lines_true c fs d t df : fixA v = true ->
+  let g := get_status c fs d t df true in
+  g_status g <> Crash ->
+  let lines := get_reasons (g_reasons g) in
+  let rc := getrec (g_db g) t in
+  (ck_changed c (getrec d t) = false -> rc = getrec d t) /\
+  (ck_changed c (getrec d t) = true -> rc = empty_rec) /\
+  (In INoDeps lines <-> ~ some_dep d t df) /\
+  (forall i, In (IUtdItem i) lines <-> nth_error (map (eval_utd d t) (uptodate df)) i = Some (Some false)) /\
+  (forall p c', In (IChecker p c') lines <-> r_checker (getrec d t) = Some p /\ p <> c /\ c' = c) /\
+  (forall x, In (IItem KMissingTarget x) lines <-> In x (targets df) /\ exists_ fs x = false) /\
+  (forall f, In (IItem KMissingDep f) lines <-> In f (file_dep df) /\ fs f = None) /\
+  (forall f, In (IItem KChanged f) lines <-> In f (file_dep df) /\ file_verdict md5 c fs rc f = FChanged) /\
+  (forall f, In (IItem KAdded f) lines <-> In f (file_dep df) /\ exists p, r_deps rc = Some p /\ ~ In f p) /\
+  (forall f, In (IItem KRemoved f) lines <-> ~ In f (file_dep df) /\ exists p, r_deps rc = Some p /\ In f p).
+Proof.
+  intros HA. cbv zeta. intros Hnc.
+  destruct (get_status_log_reasons c fs d t df Hnc) as (Edb & R1 & R2 & R3 & R4 & R5 & R6 & R7 & R8).
+  set (g := get_status c fs d t df true) in *.
+  set (rc := getrec (g_db g) t) in *.
+  split; [intros E; unfold rc; rewrite Edb, E; reflexivity|].
+  split; [intros E; unfold rc; rewrite Edb, E; apply getrec_remove|].
+  split.
+  { rewrite get_reasons_nodeps, R2, <- some_dep_b.
+    destruct (is_nil (file_dep df) && is_nil (evaluated (map (eval_utd d t) (uptodate df)))); split; congruence. }
+  split.
+  { intros i. rewrite get_reasons_utd, R1, false_positions_spec. rewrite Nat.sub_0_r. split; [tauto|]. intros H; split; [lia|auto]. }
+  split.
+  { intros p c'. rewrite get_reasons_checker, R4. unfold ck_changed.
+    destruct (r_checker (getrec d t)) as [p0|]; [|split; [discriminate | intros [H _]; discriminate]].
+    destruct (ck_eqb p0 c) eqn:E; simpl.
+    - apply ck_eqb_eq in E. subst. split; [discriminate|]. intros (H1 & H2 & _). inversion H1; subst. congruence.
+    - apply ck_eqb_neq in E. split.
+      + intros H. inversion H; subst. auto.
+      + intros (H1 & _ & ->). inversion H1; subst. reflexivity. }
+  split.
+  { intros x. rewrite get_reasons_item. unfold entries. rewrite R3, filter_In, negb_true_iff. tauto. }
+  split.
+  { intros f. rewrite get_reasons_item. unfold entries. rewrite R7, filter_In. unfold is_missing.
+    rewrite <- (file_verdict_missing c fs rc f). destruct (file_verdict md5 c fs rc f); split; intros [A B]; split; auto; discriminate. }
+  split.
+  { intros f. rewrite get_reasons_item. unfold entries. rewrite R8, filter_In. unfold is_changed.
+    destruct (file_verdict md5 c fs rc f); split; intros [A B]; split; auto; discriminate. }
+  split.
+  { intros f. rewrite get_reasons_item. unfold entries. rewrite R5.
+    destruct (deps_changed v rc df) eqn:E.
+    - rewrite sort_files_In, diff_In. apply (deps_changed_iff rc df HA) in E. destruct E as [p [Ep _]].
+      unfold prev_deps. rewrite Ep. split.
+      + intros [A B]. split; auto. exists p. auto.
+      + intros [A [p' [E' B]]]. inversion E'; subst. auto.
+    - split; [intros []|]. intros [A [p [Ep B]]]. exfalso.
+      assert (X : deps_changed v rc df = true).
+      { apply (deps_changed_iff rc df HA). exists p. split; auto. intros S. apply B. apply S. exact A. }
+      congruence. }
+  { intros f. rewrite get_reasons_item. unfold entries. rewrite R6.
+    destruct (deps_changed v rc df) eqn:E.
+    - rewrite sort_files_In, diff_In. apply (deps_changed_iff rc df HA) in E. destruct E as [p [Ep _]].
+      unfold prev_deps. rewrite Ep. split.
+      + intros [A B]. split; auto. exists p. auto.
+      + intros [A [p' [E' B]]]. inversion E'; subst. auto.
+    - split; [intros []|]. intros [A [p [Ep B]]]. exfalso.
+      assert (X : deps_changed v rc df = true).
+      { apply (deps_changed_iff rc df HA). exists p. split; auto. intros S. apply A. apply S. exact B. }
+      congruence. }
+Qed.
+
 End IntrospectP.
+
+(* ------------------------------------------------------------------ clean --dry-run (Model/Clean.v):
+   nothing is executed but clean actions that asked for the `dryrun` flag, and they receive True *)
+From DoitV Require Clean CleanP.
+Definition harmless (e : Clean.event) : Prop :=
+  match e with Clean.EExec _ _ d => d = Some true | _ => True end.
+
+Lemma clean_actions_dry t : forall acts i w e,
+  In e (Clean.w_ev (Clean.clean_actions t true i acts w)) -> In e (Clean.w_ev w) \/ harmless e.
+Proof.
+  induction acts as [|a acts IH]; intros i w e H; simpl in H; auto.
+  apply IH in H. destruct H as [H|H]; auto.
+  destruct a; simpl in H; rewrite ?in_app_iff in H; simpl in H.
+  - destruct H as [[H|[<-|[]]]|[<-|[]]]; simpl; auto.
+  - destruct H as [H|[<-|[]]]; simpl; auto.
+Qed.
+
+Lemma clean_target_dry t w p e :
+  In e (Clean.w_ev (Clean.clean_target t true w p)) -> In e (Clean.w_ev w) \/ harmless e.
+Proof.
+  unfold Clean.clean_target. destruct (Clean.fs_get (Clean.w_fs w) p) as [[|]|]; simpl; auto.
+  - rewrite in_app_iff. simpl. intros [H|[<-|[]]]; simpl; auto.
+  - destruct (Clean.fs_nonempty (Clean.w_fs w) p); simpl; rewrite in_app_iff; simpl; intros [H|[<-|[]]]; simpl; auto.
+Qed.
+
+Lemma clean_targets_dry t : forall L w e,
+  In e (Clean.w_ev (fold_left (Clean.clean_target t true) L w)) -> In e (Clean.w_ev w) \/ harmless e.
+Proof.
+  induction L as [|p L IH]; intros w e H; simpl in H; auto.
+  apply IH in H. destruct H as [H|H]; auto. apply clean_target_dry in H. exact H.
+Qed.
+
+Lemma task_clean_dry t w e :
+  In e (Clean.w_ev (Clean.task_clean t true w)) -> In e (Clean.w_ev w) \/ harmless e.
+Proof.
+  unfold Clean.task_clean. intros H.
+  assert (H0 : In e (Clean.w_ev (Clean.emit w (Clean.EClean (Clean.t_name t)))) \/ harmless e).
+  { destruct (Clean.t_clean t) as [acts|].
+    - apply clean_actions_dry in H. exact H.
+    - unfold Clean.clean_targets in H. apply clean_targets_dry in H. exact H. }
+  destruct H0 as [H0|H0]; auto. simpl in H0. rewrite in_app_iff in H0. simpl in H0.
+  destruct H0 as [H0|[<-|[]]]; simpl; auto.
+Qed.
+
+Lemma clean_tasks_dry forget : forall ts cleaned w l w' e,
+  Clean.clean_tasks true forget ts cleaned w = (l, w') ->
+  In e (Clean.w_ev w') -> In e (Clean.w_ev w) \/ harmless e.
+Proof.
+  induction ts as [|t ts IH]; intros cleaned w l w' e H Hin; simpl in H.
+  - inversion H; subst; auto.
+  - destruct (mem (Clean.t_name t) cleaned).
+    + eapply IH; eauto.
+    + rewrite andb_false_r in H.
+      destruct (Clean.clean_tasks true forget ts (Clean.t_name t :: cleaned) (Clean.task_clean t true w)) as [l1 w3] eqn:E.
+      inversion H; subst.
+      destruct (IH _ _ _ _ e E Hin) as [X|X]; auto. apply task_clean_dry in X. exact X.
+Qed.
+
+(* ------------------------------------------------------------------ the statements of Properties/C20.v *)
+Lemma ck_changed_foreign c r : ck_changed c r = true -> exists p, r_checker r = Some p /\ p <> c.
+Proof.
+  unfold ck_changed. destruct (r_checker r) as [p|]; [|discriminate]. intros F.
+  exists p. split; auto. apply ck_eqb_neq. apply negb_true_iff. exact F.
+Qed.
+
+Lemma T_status_frame : forall (md5 : N -> N) (v : ver) (c : ck) (fs : fsys) (d : db) (t : name) (df : tdef) (get_log : bool),
+  let d' := g_db (get_status md5 v c fs d t df get_log) in
+  d' = d \/
+  ((exists p, r_checker (getrec d t) = Some p /\ p <> c) /\ d' = remove d t).
+Proof.
+  intros md5 v c fs d t df gl. cbv zeta.
+  destruct (get_status_db md5 v c fs d t df gl) as [E|[F E]]; [left; exact E|right].
+  split; [|exact E]. apply ck_changed_foreign; auto.
+Qed.
+
+Lemma T_list_frame : forall (md5 : N -> N) (v : ver) (name_ltb : name -> name -> bool) (iv : iver) (cf : name -> list file)
+    (tb : table) (o : lopts) (c : ck) (fs : fsys) (d : db) (b : backend) (x : name),
+  let d' := persisted b d (lres_db d (list_cmd md5 v name_ltb iv cf tb o c fs d)) in
+  d' x = d x \/ (d' x = None /\ exists p, r_checker (getrec d x) = Some p /\ p <> c).
+Proof.
+  intros md5 v lt iv cf tb o c fs d b x. cbv zeta.
+  destruct (persisted_frame b c d _ (list_cmd_frame md5 v iv cf tb lt o c fs d) x) as [E|[E F]]; [left; exact E|right].
+  split; [exact E|]. apply ck_changed_foreign; auto.
+Qed.
+
+Lemma T_info_frame : forall (md5 : N -> N) (v : ver) (iv : iver) (cf : name -> list file) (tb : table) (pos : list name) (hide : bool)
+    (c : ck) (fs : fsys) (d : db) (b : backend) (x : name),
+  let d' := persisted b d (ires_db d (info_cmd md5 v iv cf tb pos hide c fs d)) in
+  d' x = d x \/ (d' x = None /\ exists p, r_checker (getrec d x) = Some p /\ p <> c).
+Proof.
+  intros md5 v iv cf tb pos hide c fs d b x. cbv zeta.
+  destruct (persisted_frame b c d _ (info_cmd_frame md5 v iv cf tb pos hide c fs d) x) as [E|[E F]]; [left; exact E|right].
+  split; [exact E|]. apply ck_changed_foreign; auto.
+Qed.
+
+Lemma T_no_query_no_change : forall (md5 : N -> N) (v : ver) (name_ltb : name -> name -> bool) (iv : iver) (cf : name -> list file)
+    (tb : table) (o : lopts) (pos : list name) (c : ck) (fs : fsys) (d : db),
+  (o_status o = false -> lres_db d (list_cmd md5 v name_ltb iv cf tb o c fs d) = d) /\
+  ires_db d (info_cmd md5 v iv cf tb pos true c fs d) = d /\
+  (no_foreign c d -> forall hide x,
+     lres_db d (list_cmd md5 v name_ltb iv cf tb o c fs d) x = d x /\ ires_db d (info_cmd md5 v iv cf tb pos hide c fs d) x = d x).
+Proof.
+  intros md5 v lt iv cf tb o pos c fs d. split; [|split].
+  - intros Hs. unfold list_cmd. destruct (print_list lt tb o); simpl; auto. apply print_tasks_no_status; auto.
+  - apply info_hide_db.
+  - intros Hn hide x. split; apply (db_frame_no_foreign c d _ Hn).
+    + apply list_cmd_frame.
+    + apply info_cmd_frame.
+Qed.
+
+Lemma T_readonly_as_history : forall (md5 : N -> N) (size_of : N -> Z) (v : ver) (iv : iver) (cf : name -> list file) (tb : table)
+    (s : state) (o : lopts) (pl : list ltask) (lines : list lline) (d' : db),
+  (forall t dk, In t pl -> shown_def iv cf tb dk t = s_defs s (l_name t)) ->
+  print_tasks md5 v iv cf tb (s_ck s) (s_fs s) o pl (s_db s) = LOk lines d' ->
+  let ops := list_ops (s_db s) (o_status o) pl in
+  forallb query_op ops = true /\
+  s_db (run_from md5 size_of v s ops) = d' /\
+  same_world s (run_from md5 size_of v s ops) /\
+  (forall hide n, forallb query_op (info_ops hide n) = true /\ same_world s (run_from md5 size_of v s (info_ops hide n))).
+Proof.
+  intros md5 size_of v iv cf tb s o pl lines d' Hdef H. cbv zeta.
+  split; [apply list_ops_query|].
+  split; [exact (print_tasks_as_history md5 v iv cf tb size_of o pl s lines d' Hdef H (s_db s) (ign_frame_refl _))|].
+  split; [apply query_run_world; apply list_ops_query|].
+  intros hide n. split; [apply info_ops_query | apply query_run_world; apply info_ops_query].
+Qed.
+
+Lemma T_clean_dryrun_frame : forall pat (fnmatch : name -> pat -> bool) tb o w l w',
+  Clean.clean_execute pat fnmatch tb o w = Clean.Ok (l, w') -> Clean.o_dryrun o = true ->
+  Clean.w_fs w' = Clean.w_fs w /\ (forall x, In x (Clean.w_db w') <-> In x (Clean.w_db w)) /\
+  forall e, In e (Clean.w_ev w') -> In e (Clean.w_ev w) \/ harmless e.
+Proof.
+  intros pat fnmatch tb o w l w' H Hd.
+  destruct (CleanP.T_dryrun_frame pat fnmatch tb o w l w' H Hd) as [A B]. split; [exact A|]. split; [exact B|].
+  destruct (CleanP.clean_execute_inv pat fnmatch tb o w l w' H) as (ts & _ & _ & Hc).
+  rewrite Hd in Hc. intros e. exact (clean_tasks_dry _ _ _ _ _ _ e Hc).
+Qed.
+
+Lemma T_list_agrees : forall (md5 : N -> N) (v : ver) (name_ltb : name -> name -> bool) (iv : iver) (cf : name -> list file)
+    (tb : table) (o : lopts) (c : ck) (fs : fsys) (d : db) (pl : list ltask) (lines : list lline) (d' : db),
+  fixCalc iv = true ->
+  print_list name_ltb tb o = POk pl -> o_status o = true ->
+  list_cmd md5 v name_ltb iv cf tb o c fs d = LOk lines d' ->
+  filter is_task_line lines = map (fun x => LTask (fst (fst x)) (snd (fst x))) (status_letters md5 v iv cf tb c fs pl d) /\
+  forall n l dk, In (n, l, dk) (status_letters md5 v iv cf tb c fs pl d) ->
+    (forall x, dk x = d x \/ (dk x = None /\ ck_changed c (getrec d x) = true)) /\
+    exists t, In t pl /\ n = l_name t /\
+              l = decision_letter (run_decision md5 v c fs dk n (run_def tb (saved_fd cf dk) t)).
+Proof.
+  intros md5 v lt iv cf tb o c fs d pl lines d' Hfix Hpl Hs H. unfold list_cmd in H. rewrite Hpl in H.
+  split; [exact (print_tasks_letters md5 v iv cf tb c fs o pl Hs d lines d' H)|].
+  intros n l dk Hin. destruct (status_letters_spec md5 v iv cf tb c fs pl d n l dk Hin) as (F & t & A & B & C).
+  split; [exact F|]. exists t. split; auto. split; auto. rewrite C. unfold shown_def. rewrite Hfix. reflexivity.
+Qed.
+
+Lemma T_list_agrees_one : forall (md5 : N -> N) (v : ver) (iv : iver) (cf : name -> list file) (tb : table) (c : ck) (fs : fsys) (d : db) (t : ltask),
+  fixCalc iv = true ->
+  fst (task_status md5 v iv cf tb c fs d t) = decision_letter (run_decision md5 v c fs d (l_name t) (run_def tb (saved_fd cf d) t)).
+Proof.
+  intros md5 v iv cf tb c fs d t Hfix. rewrite task_status_decision. unfold shown_def. rewrite Hfix. reflexivity.
+Qed.
+
+Lemma T_reachable_no_typeerror : forall (md5 : N -> N) (size_of : N -> Z) (ops : list op) (t : name) (df : tdef) (gl : bool),
+  let s := run md5 size_of current ops in
+  g_status (get_status md5 current (s_ck s) (s_fs s) (s_db s) t df gl) <> Crash.
+Proof.
+  intros md5 size_of ops t df gl. cbv zeta. apply get_status_no_crash.
+  exact (proj1 (run_typed md5 size_of current eq_refl ops) t).
+Qed.
+
+Lemma T_info_agrees_partial : forall (md5 : N -> N) (v : ver) (c : ck) (fs : fsys) (d : db) (t : name) (df : tdef),
+  (g_status (get_status md5 v c fs d t df true) = UpToDate <-> g_status (get_status md5 v c fs d t df false) = UpToDate) /\
+  ((forall f, In f (file_dep df) -> fs f <> None) ->
+   g_status (get_status md5 v c fs d t df true) <> Crash ->
+   g_status (get_status md5 v c fs d t df true) = g_status (get_status md5 v c fs d t df false) /\
+   (status_is_ignore d t = false ->
+    decision_of_status (g_status (get_status md5 v c fs d t df true)) = run_decision md5 v c fs d t df)).
+Proof.
+  intros md5 v c fs d t df. split; [exact (get_status_modes_agree_uptodate md5 v c fs d t df)|].
+  intros Hex Hnc. pose proof (get_status_modes_agree md5 v c fs d t df Hex Hnc) as E. split; [exact E|].
+  intros Hig. unfold run_decision. rewrite Hig, E. reflexivity.
+Qed.
+
+(* the status line of `info` (repaired code) is the decision of `run`: always for an ignored task and
+   for the verdict up-to-date, and in every case when all file dependencies exist *)
+Lemma T_info_cmd_agrees_partial : forall (md5 : N -> N) (v : ver) (iv : iver) (cf : name -> list file) (tb : table)
+    (n : name) (t : ltask) (c : ck) (fs : fsys) (d : db) (st : istatus) (lines : list iline) (rc : Z) (d' : db),
+  fixCalc iv = true -> fixIgn iv = true ->
+  lookup tb n = Some t ->
+  info_cmd md5 v iv cf tb [n] false c fs d = IOk st lines rc d' ->
+  let x := run_decision md5 v c fs d (l_name t) (run_def tb (saved_fd cf d) t) in
+  (x = DIgnore <-> st = IIgnored) /\
+  (x = DUpToDate <-> st = IStatus UpToDate) /\
+  ((forall f, In f (file_dep (run_def tb (saved_fd cf d) t)) -> fs f <> None) -> istatus_decision st = Some x).
+Proof.
+  intros md5 v iv cf tb n t c fs d st lines rc d' Hc Hi Hl H. cbv zeta.
+  destruct (info_cmd_status md5 v iv cf tb n t c fs d st lines rc d' Hl H) as [(Ei & -> & _)|(Ei & Hst)].
+  - rewrite Hi in Ei. simpl in Ei. unfold run_decision. rewrite Ei.
+    split; [tauto|]. split; [split; discriminate|]. reflexivity.
+  - cbv zeta in Hst. destruct Hst as (-> & Hnc & _ & _). rewrite Hi in Ei. simpl in Ei.
+    unfold shown_def in *. rewrite Hc in *.
+    set (df := run_def tb (saved_fd cf d) t) in *.
+    unfold run_decision. rewrite Ei.
+    split; [split; [intros X|discriminate]|].
+    { destruct (g_status (get_status md5 v c fs d (l_name t) df false)); discriminate. }
+    split.
+    { pose proof (get_status_modes_agree_uptodate md5 v c fs d (l_name t) df) as A. split.
+      - intros X. f_equal. apply A. destruct (g_status (get_status md5 v c fs d (l_name t) df false)); try discriminate; reflexivity.
+      - intros X. inversion X as [X']. apply A in X'. rewrite X'. reflexivity. }
+    intros Hex. simpl. rewrite (get_status_modes_agree md5 v c fs d (l_name t) df Hex Hnc). reflexivity.
+Qed.
